@@ -190,3 +190,56 @@ func VH17b_recv() {
 	sock.Close()
 	verif.Quiesce()
 }
+
+// VH17c_recycle: the application frees a received request before replying
+// (as Socket.Recv does); its buffers are recycled by later traffic (pool Get
+// may return any pooled object). What the library kept for the reply must not
+// live in those buffers: the reply still carries the first request's routing header.
+func VH17c_recycle() {
+	proto := []string{"rep", "respondent"}[verif.Choice("proto", 2)]
+	lab := "C17/recycle/" + proto
+	sock := vp.New(proto)
+	vt.Install()
+	side := vt.Listen(sock, "a")
+	p1, p2 := side.Peer("p1"), side.Peer("p2")
+	hdrA := verif.Bytes("hdrA", 4)
+	verif.Assume(hdrA[0]&0x80 != 0)
+	p1.Deliver(append(append([]byte{}, hdrA...), 'A'))
+	var m *mangos.Message
+	var err error
+	g := verif.Go("recv", func() { m, err = sock.RecvMsg() })
+	verif.Quiesce()
+	verif.Assert(g.Done() && err == nil, lab+"/recv")
+	if !g.Done() || err != nil {
+		return
+	}
+	m.Free() // the application is done with the request
+	// more requests of the same size class arrive on another connection and are parsed
+	c2, cerr := sock.OpenContext()
+	verif.Assert(cerr == nil, lab+"/context")
+	for i := 0; i < 2; i++ {
+		hb := verif.Bytes("hdrB", 4)
+		verif.Assume(hb[0]&0x80 != 0)
+		hop := verif.Bytes("hopB", 4)
+		verif.Assume(hop[0]&0x80 == 0)
+		p2.Deliver(append(append(append([]byte{}, hop...), hb...), 'B'))
+		verif.Quiesce()
+		gb := verif.Go("recvB", func() {
+			if mb, e := c2.RecvMsg(); e == nil {
+				mb.Free()
+			}
+		})
+		verif.Quiesce()
+		_ = gb
+	}
+	// now the first request is answered
+	verif.Assert(sock.Send([]byte{'r'}) == nil, lab+"/reply")
+	verif.Quiesce()
+	verif.Assert(len(p1.Sent) == 1, lab+"/reply-not-sent-to-the-requester")
+	if len(p1.Sent) == 1 {
+		want := append(append([]byte{}, hdrA...), 'r')
+		verif.Assert(verif.BytesEq(p1.Sent[0].Bytes(), want), lab+"/reply-header-taken-from-a-recycled-buffer")
+	}
+	verif.Reach("recycled")
+	sock.Close()
+}
